@@ -149,16 +149,17 @@ DeviationsAreRejected ==
   (Answered /\ batch.groups = <<>> /\ Len(batch.reqs) = 1 /\ fx[1].v # "UNDECIDED")
     => \A x \in Candidates(g, Req(1), fx[1].P) \ RouteOne(g, Req(1), fx[1].P) :
           Judge(g, batch, fx, [err |-> 0, res |-> <<x>>], 0) # {}
-\* for one pair: overlapping routes and unjustified errors are rejected
+\* for one pair: overlapping routes and unjustified errors are rejected; and when the oracle says that not even
+\* the STRICT hops can be honoured disjointly, every pair of routes fails a clause that needs no search
 PairDeviationsAreRejected ==
   (Answered /\ SinglePair(batch) /\ Len(batch.reqs) = 2)
-    => /\ \A pq \in fx[1].P \X fx[2].P :
-            ~LinkDisjoint(pq[1], pq[2])
-               => Judge(g, batch, fx, [err |-> 0, res |-> <<Found(pq[1]), Found(pq[2])>>], 0) # {}
-       /\ Solutions(batch, fx, "strong") # {} => Judge(g, batch, fx, ErrOutcome, 0) # {}
-       /\ Solutions(batch, fx, "weak") = {}
-            => \A pq \in fx[1].P \X fx[2].P :
-                 Judge(g, batch, fx, [err |-> 0, res |-> <<Found(pq[1]), Found(pq[2])>>], 0) # {}
+    => LET strong == Solutions(batch, fx, "strong") # {}
+           weak   == Solutions(batch, fx, "weak") # {}
+           Two(pq) == [err |-> 0, res |-> <<Found(pq[1]), Found(pq[2])>>]
+       IN  /\ \A pq \in fx[1].P \X fx[2].P :
+                ~LinkDisjoint(pq[1], pq[2]) => JudgeStructural(g, batch, Two(pq)) # {}
+           /\ strong => ~PairComplete(batch, fx, ErrOutcome)
+           /\ ~weak => \A pq \in fx[1].P \X fx[2].P : JudgeStructural(g, batch, Two(pq)) # {}
 
 -----------------------------------------------------------------------------
 (* generation for the replay into the code (B2): one JSON line per batch, with what the oracle says about it  *)
